@@ -624,8 +624,9 @@ class FnTranslator:
                 raise Untranslatable("%s: no default for %s" % (self.where, k))
             env[k] = self.expr(defaults[k], {})
         arg_params = [k for k in self.argnames if k not in inline_defaults]
-        for k in arg_params:
-            self.param(k)
+        if not spec.get("only_used_args"):      # only_used_args: parameters are created on first use
+            for k in arg_params:
+                self.param(k)
         if "expr_path" in spec:
             node = resolve_path(fn, spec["expr_path"], self.where)
             if not isinstance(node, ast.expr):
